@@ -44,7 +44,9 @@ def match_known(known, pid, ob):
             continue
         if k["property"] != pid or k["rule"] != ob.rule:
             continue
-        if k["function"] != ob.fn_q:
+        # the thorough tier repeats every rule under more build configurations and tags the function with " [cfg]":
+        # the same construct of the same function is the same finding in every configuration
+        if k["function"] != ob.fn_q and k["function"] != ob.fn_q.split(" [")[0]:
             continue
         if k["construct"] != ob.construct:
             continue
@@ -142,8 +144,14 @@ def main():
         for f in os.listdir(os.path.join(evdir, "replay")):
             if f.startswith(pid + "-"):
                 os.unlink(os.path.join(evdir, "replay", f))
+    printed = set()
     for ob, k in known_hits:
-        print("KNOWN-FINDING: property=%s %s %s %s -- %s" % (pid, ob.rule, ob.fn_q, ob.construct, k.get("fails", "")))
+        key = (k["rule"], k["function"], k["construct"], k.get("ordinal"))
+        if key in printed:
+            continue      # the same listed finding seen again under another build configuration of the thorough tier
+        printed.add(key)
+        n_cfg = sum(1 for (o2, k2) in known_hits if k2 is k)
+        print("KNOWN-FINDING: property=%s %s %s %s%s -- %s" % (pid, ob.rule, k["function"], ob.construct, (" (in %d build configurations)" % n_cfg) if n_cfg > 1 else "", k.get("fails", "")))
     if broken:
         for b in broken:
             print("ANALYSIS-BROKEN property=%s %s" % (pid, b))
